@@ -255,9 +255,14 @@ def dmrg_protocol(ctx) -> None:
     okc = False
     for p in rets:
         r = strip_typed(p.retval)
-        if r[0] == "cmp" and r[1] == "<" and "abs(" in show(r[2]) and "current_energy" in show(r[2]) and "previous_energy" in show(r[2]) \
-                and strip_typed(r[3]) == ("param", cc.qualname, "energy_tolerance"):
-            okc = True
+        if r[0] == "cmp" and r[1] in ("<", "<=") and strip_typed(r[3]) == ("param", cc.qualname, "energy_tolerance"):
+            a = strip_typed(r[2])
+            if a[0] == "call" and a[1] in ("abs", "torch.abs") and len(a[2]) == 1:
+                from ..algebra import monomials
+                mons = {tuple(show(x) for x in m): c for m, c in monomials(a[2][0]).items()}
+                # |E_now − E_before|, either orientation
+                okc = len(mons) == 2 and set(mons) == {("self.current_energy",), ("self.previous_energy",)} and \
+                    abs(sum(mons.values())) < 1e-12 and all(abs(abs(c) - 1) < 1e-12 for c in mons.values())
     none_false = any(strip_typed(p.retval) == ("const", False) for p in rets)
     ctx.ob("CONV-gate", "convergence_check predicate", cc.loc(), okc and none_false,
            "converged ⇔ |E_current − E_previous| < energy_tolerance (False while an energy is missing)" if okc and none_false
